@@ -24,6 +24,8 @@ func init() {
 			ruleLocksSurviveRecovery(c, "R5")
 			ruleRecoveryWriterIsCurrent(c, "R6")
 			ruleAppendDoesNotAlias(c, "R7", "mux.(*Group).New", "mux.NewGroup", "mux.NewRouter")
+			ruleOptionClosuresStore(c, "R8")
+			ruleRecoveryShorthands(c, "R9")
 		},
 	})
 	register(&Spec{
@@ -39,6 +41,7 @@ func init() {
 			ruleTraceHelper(c, "R5")
 			ruleTraceHeaderOwned(c, "R6")
 			ruleRecountFilter(c, "R7")
+			ruleGroupOptionOrder(c, "R8")
 		},
 	})
 }
